@@ -11,5 +11,8 @@ structure FOpsX (F : Type) extends FOps F where
   isZero : F → Bool
   isOne : F → Bool
   pow : F → Nat → F
+  /-- `get_root_of_unity(k)` and the condition under which its assertions hold -/
+  root : Nat → F
+  rootOk : Nat → Bool
 
 end Gen
